@@ -19,6 +19,8 @@ RULES = {
     'C02.b': 'a literal version is stored only for a key that was absent, or is the in-conflict marker',
     'C02.c': 'strategy None returns the store\'s VersionError unchanged and without any effect; the absent-key '
              'branch of the store has no refusing exit',
+    'C02.d': 'a success reply of the store / the increment is built only on paths that passed an insert into Database.map '
+             '(an acknowledged write is a committed write with a new version)',
 }
 
 
@@ -171,6 +173,7 @@ def run(ck, m):
                 ck.ob('C02.b', short(b.id), 'literal-version:%s' % lit, ok,
                       '%s inserts a Value built with the literal version %s: %s' % (short(b.id), lit, why), b.loc(bi))
     ck.floor('C02.b', nb, 2, 'inserts into the shared Database.map')
+    success_implies_write(ck, m)
     # ---- C02.c -------------------------------------------------------------------------
     rb = resolver_fn(m)
     sw = strategy_switch(m, rb)
@@ -233,6 +236,28 @@ def run(ck, m):
         if okc or 'can refuse' in whyc:
             break
     ck.ob('C02.c', short(sb.id), 'absent-key-never-refused', okc, whyc, '%s:%s' % (sb.file, sb.line))
+
+
+def success_implies_write(ck, m):
+    fx = m.fx()
+    ex = m.explorer()
+    for b, succ_variants in ((store_fn(m), ('Set',)), (increment_fn(m), ('Ok',))):
+        top = ex.top_frame(b)
+        ins = {bi for bi, t in b.calls() if t['f'].get('dargs', '').startswith('std::collections::HashMap::<std::string::String, nundb::bo::Value>::insert')
+               and fx.guard_sources(top, t['args'][0])}
+        succ = [bi for bi in b.reachable() for s_ in b.blocks[bi]['s'] if s_['k'] == 'assign' and s_['r']['k'] == 'agg'
+                and s_['r'].get('adt', '').endswith('bo::Response') and s_['r'].get('variant') in succ_variants]
+        # with the insert calls cut out of the CFG no success reply may be reachable
+        cut = set()
+        for i in ins:
+            for nx in b.succ(i):
+                cut.add((i, nx))
+        reach = core.reachable_without(b, cut)
+        bad = [b.loc(x) for x in succ if x in reach]
+        ck.ob('C02.d', short(b.id), 'success-implies-write', bool(ins) and bool(succ) and not bad,
+              'every success reply of %s is preceded by an insert into Database.map' % short(b.id) if ins and succ and not bad else
+              '%s can answer success (%s) on a path that writes nothing: the key keeps its version, so a second writer presenting the '
+              'same base version succeeds too' % (short(b.id), bad), '%s:%s' % (b.file, b.line))
 
 
 def literal_ok(m, root, site_bis, lit):
